@@ -134,6 +134,13 @@ def gen_donor(seed, tier, donor):
                 if nm in mw["hours"][h + 1]["rows"] and len(names) > 1:
                     del mw["hours"][h]["rows"][nm]
                     sc["faults"].append({"kind": "instrument_missing_for_one_hour", "bar": h})
+    # the option token's price taken from the option market's own data through the market's helper (hourly underlying,
+    # expanded to minutes by the real get_price_from_data) instead of a price list of the user's own
+    for mw in world["markets"]:
+        if mw.get("kind") == "deribit" and mw.get("token") == "ETH" and "ETH" in (world.get("prices") or {}) and R.sub(seed, "prices_from_market").random() < 0.4:
+            world["prices_from"] = {"ETH": mw["name"]}
+            sc["faults"].append({"kind": "token_price_derived_from_option_data"})
+            break
     cands = sorted(set([0, max(0, nb - 2)] + [rf.randint(0, max(0, nb - 2)) for _ in range(2)]))
     twins = []
     for kb in cands:
